@@ -1,5 +1,6 @@
 #![allow(dead_code)]
 mod codec_cases;
+mod ep;
 mod fq;
 mod pipes;
 mod proxy;
@@ -70,6 +71,7 @@ fn run_case(kind: &str, args: &[&str]) -> String {
         "sock" => sock::run(args),
         "fq" => fq::run(args),
         "ts" => ts::run(args),
+        "ep" => ep::run(args),
         "proxy" => proxy::run(args),
         "compat" => codec_cases::compat(args),
         "stypename" => codec_cases::stypename(args),
